@@ -15,6 +15,8 @@ func checkC06(c *Ctx) {
 	r.Rule("R06.2", "values contribute no raw bytes: in colored mode no site copies an attribute value, error text or fallback formatting into the record verbatim")
 	r.Rule("R06.3", "layout: timestamp, logger name, severity tag, first line, attributes, caller, remaining lines, in this order; the tag is ShortTag(levelOutputWidth) between brackets; the first line is right-padded to minimalMessageWidth; remaining lines are indented by padFunc(.., \" \", 4, ..) and follow a line break; attributes are sorted (R07.3)")
 	r.Rule("R05.3", "(shared with C05) the quoting routine behind every quoted attribute value lets no control byte through: appendQuotedWith appends only the quote, \\xHH of an invalid byte and the output of appendEscapedRune, which copies a rune verbatim only under a printability test")
+	r.Rule("R09.2", "(shared with C09) the layout depends on the configuration in force, not on earlier records: nothing on the print path stores to package-level state (a tag or padding computed for one width is not kept for another)")
+	r.Rule("R17.6", "(shared with C17) the level tag of a given width: every tag literal and every tag a registration stores under width n has n characters")
 	r.Rule("R06.4", "no pooled encoder field is read stale in colored mode (engine E10): remaining lines, colours and the end-of-line flag of a previous record cannot surface")
 	r.Assume("messages contain no escape bytes and no HTML-like markup (the property's domain for hygiene/layout); the markup translator of the dependency is treated as text")
 	mode := Mode{false, false}
@@ -31,7 +33,10 @@ func checkC06(c *Ctx) {
 		mr := emissionCommon(c, p, m, mode, "R06.2")
 		c06SGR(c, p, m, mr)
 		c06Layout(c, p, m, mr)
+		padUnbounded(c, p)
 		c05Quoting(c, p, m, mr)
+		c09Globals(c, p, m)
+		c17Tags(c, p, m)
 		fieldOrder(c, p, m, mode, "R06.3", []string{"Begin", "printTimestamp", "printLoggerName", "printSeverity", "printFirstLineOfMsg", "serializeAttrs", "printPC", "printRestLinesOfMsg", "End", "Bytes", "printOut"}, map[string]bool{"printPC": true})
 		c09Pooled(c, p, m, "R06.4", []Mode{mode})
 	}
